@@ -238,9 +238,25 @@ def work(item):
         out = [obl.prove(S, f"{name}: output proportional to U|psi> for all {k} outcomes (peak width {peak} qubits)", lhs, rhs, replay=rp, signature=sig, timeout=180, tol=1e-9 if "Rot" in cname else None)]
         if leak:
             out.append(obl.prove(S, f"{name}: all other wires back in |0>", leak, [0] * len(leak), replay=rp, signature=sig, timeout=120))
-        n2 = sum((x * (x.conjugate() if isinstance(x, sx.SymC) else np.conj(x)) for x in main), 0)
-        n0 = sum((x * x.conjugate() for x in amps), 0)
-        out.append(obl.prove(S, f"{name}: every outcome pattern has weight 2^-{k}", [n2 * (2 ** k)], [n0], replay=rp, signature=sig + ":weight", timeout=180, tol=1e-9 if "Rot" in cname else None))
+        big = max((len(x.p) for x in main if isinstance(x, sx.SymC)), default=0) > 1500
+        if not big:
+            n2 = sum((x * (x.conjugate() if isinstance(x, sx.SymC) else np.conj(x)) for x in main), 0)
+            n0 = sum((x * x.conjugate() for x in amps), 0)
+            out.append(obl.prove(S, f"{name}: every outcome pattern has weight 2^-{k}", [n2 * (2 ** k)], [n0], replay=rp, signature=sig + ":weight", timeout=180, tol=1e-9 if "Rot" in cname else None))
+        else:
+            # large outcome polynomials: with main == lambda(m) * U x (proved above), lambda(m) * U[i0, j0] is the coefficient of the input
+            # amplitude x_j0 in main[i0]; the weight claim becomes |lambda(m)|^2 * 2^k == 1
+            t0 = qp.tape.QuantumScript(CIRCUITS[cname]([0.1, 0.2, 0.3]))
+            Un = np.asarray(qp.matrix(t0, wire_order=sorted(t0.wires)), dtype=complex)
+            i0, j0 = next((i_, j_) for i_ in range(n) for j_ in range(n) if abs(Un[i_, j_]) > 1e-9)
+            idx = S.V.index[f"x{j0}_re"]
+            lam = {}
+            for mono, coef in main[i0].p.items():
+                if (idx, 1) in mono:
+                    lam[tuple(f for f in mono if f != (idx, 1))] = coef
+            lam = sx.SymC(S, lam) * complex(1 / Un[i0, j0])
+            w = lam * lam.conjugate()
+            out.append(obl.prove(S, f"{name}: every outcome pattern has weight 2^-{k} (|lambda(m)|^2, lambda read off the coefficient of x{j0} in output {i0})", [w * (2 ** k)], [1], replay=rp, signature=sig + ":weight", timeout=180, tol=1e-9))
         return out
 
     def fix_replay_payload(recs):
